@@ -13,7 +13,9 @@
 (*               (the admission decision a DELETE in version v with policy *)
 (*               p would get in this state, and the annotation afterwards);*)
 (*   post.us   : per Usage: ex, ready, del, fin, owners, of, by (resolved  *)
-(*               names), idx (what the registered index function returns). *)
+(*               names), idx (what the registered index function returns), *)
+(*               comp (carries the crossplane.io/composite label);         *)
+(*   post.bex / post.bdel : the using resource exists / is being deleted.  *)
 (* "delreq" events are delete requests that were really issued (and took   *)
 (* effect).  The D11 situation - the marker removed by the deletion        *)
 (* reconcile of one Usage acting on a List that a later Usage of the same  *)
@@ -80,6 +82,10 @@ ReadyUnmarked(p, e) == {<<s.id, u.id>> : s \in BecameReady(p, e), u \in {y \in U
 Removed(p, e) == {u.id : u \in {y \in Used(p) : y.ex /\ y.label /\ \E z \in Used(e) : z.id = y.id /\ z.ex /\ ~z.label}}
 RemovalOK(p, id) == /\ \E s \in Us(p) : Names(s, id) /\ s.del
                     /\ ~\E s \in Us(p) : Live(s) /\ s.of = id
+\* UsageAfterUser (rider of C08): a Usage that is itself composed (carries the crossplane.io/composite label) and is by a
+\* resource loses its finalizer only after that using resource is gone (absent in the state the removal is applied to)
+LostFinalizer(p, e) == {s \in Us(p) : s.ex /\ s.fin /\ s.comp /\ s.by # None /\ ~\E t \in Us(e) : t.id = s.id /\ t.ex /\ t.fin}
+UsageAfterUser(p, e) == LostFinalizer(p, e) # {} => ~p.post.bex
 \* delete requests that were really issued
 ReqLive(p, e) == {s.id : s \in {x \in Us(p) : Live(x) /\ x.of = e.req.u}}
 ReqDenied(e) == e.req.o = "deny"
@@ -102,6 +108,7 @@ Check(i) ==
         /\ ((\A id \in Removed(p, e) : RemovalOK(p, id)) \/
               IF \A id \in {x \in Removed(p, e) : ~RemovalOK(p, x)} : \E s \in Us(p) : StaleStepWrt(i, id, s.id)
               THEN Viol("LabelLast.StaleUnlabel", i) ELSE Viol("LabelLast", i))
+        /\ (UsageAfterUser(p, e) \/ Viol("UsageAfterUser", i))
         /\ (e.ev # "delreq" \/
               /\ ((ReqLive(p, e) = {} \/ ReqDenied(e)) \/
                     IF \A sid \in ReqLive(p, e) : StaleFor(i - 1, e.req.u, sid) THEN Viol("Protected.StaleUnlabel", i) ELSE Viol("Protected", i))
